@@ -19,7 +19,7 @@ R == "r1"
 U == "u1"
 UInit == Init /\ CWInit
 Total == IF K(R, U) \in DOMAIN sent THEN Len(sent[K(R, U)]) ELSE 0
-Alive == Has(ups[R], U) => ~ups[R][U].dead    \* a failed commit ends an honest caller's use of the session
+Alive == Has(ups[R], U) => (~ups[R][U].dead /\ ~ups[R][U].done)    \* a caller following the contract commits once
 UStep ==
   \/ \E h \in Hints : ~Has(ups[R], U) /\ CPushBlobChunked(R, U, h, MinChunk)
   \/ \E d \in Chunks : Total + Len(d) <= MaxSent /\ HasW(R, U) /\ (Honest => ~cw[K(R, U)].closed) /\ CWrite(R, U, d)
